@@ -123,7 +123,13 @@ NONCANONICAL = [("008", _XSD + "integer"), ("+7", _XSD + "integer"), ("1.50", _X
                 ("1", _XSD + "boolean"), ("0042", _XSD + "nonNegativeInteger")]
 
 
-def rdf11_statements(r, g: genmod.Gen, n: int, arity: int, noncanon_p: float = 0.15) -> list:
+# literals whose lexical form the whiteSpace facet of their datatype would rewrite (xsd:normalizedString: replace; xsd:token: collapse):
+# RDF terms like any other -- a reader must hand out the form that was sent
+FACET = [("  a \t b  ", _XSD + "token"), (" x", _XSD + "token"), ("p  q", _XSD + "token"), ("l1\nl2", _XSD + "normalizedString"),
+         ("tab\there", _XSD + "normalizedString"), ("plain", _XSD + "token"), (" kept as sent ", _XSD + "normalizedString")]
+
+
+def rdf11_statements(r, g: genmod.Gen, n: int, arity: int, noncanon_p: float = 0.15, facet_p: float = 0.0) -> list:
     """RDF 1.1 statements (s IRI|BNode, p IRI, o any non-quoted, g IRI|BNode|default) with
     literals rdflib does not normalise away... except the known "01" case which is kept."""
     out, prev = [], None
@@ -142,6 +148,9 @@ def rdf11_statements(r, g: genmod.Gen, n: int, arity: int, noncanon_p: float = 0
                 return t
 
     def obj():
+        if facet_p and r.random() < facet_p:
+            lex, dt = r.choice(FACET)
+            return gs.Literal(lex, datatype=dt)
         if r.random() < noncanon_p:
             # a typed literal whose lexical form is not the canonical one of its datatype: what the reader
             # hands out must be the form that was sent
@@ -176,7 +185,7 @@ def rdf11_statements(r, g: genmod.Gen, n: int, arity: int, noncanon_p: float = 0
 
 
 def ref_stream(ctx, rdf11: bool = False, phys: int | None = None, nd: bool | None = None, churn: bool | None = None,
-               edge: bool | None = None, noncanon_p: float = 0.15):
+               edge: bool | None = None, noncanon_p: float = 0.15, facet_p: float = 0.0):
     """One valid stream from the reference encoder -> dict(frames, events, bytes...) or None."""
     r = ctx.rng
     phys = phys or r.choice([1, 2, 3])
@@ -190,7 +199,7 @@ def ref_stream(ctx, rdf11: bool = False, phys: int | None = None, nd: bool | Non
         g = genmod.Gen(r, nprefix=r.randint(4, 7), nname=r.randint(2, 3), ndt=r.randint(1, 2))
     if rdf11:
         # BNODES with empty labels / empty IRIs are not RDF 1.1 material for rdflib
-        stmts = rdf11_statements(r, g, r.choice([6, 10, 15] if churn else [1, 2, 4, 8, 15]), ar, noncanon_p)
+        stmts = rdf11_statements(r, g, r.choice([6, 10, 15] if churn else [1, 2, 4, 8, 15]), ar, noncanon_p, facet_p)
     else:
         stmts = g.statements(r.choice([6, 10, 15] if churn else [1, 2, 4, 8, 15]), ar)
     need = genmod.table_need(stmts)
@@ -240,6 +249,77 @@ def check_against_referee(ctx, data: bytes, expected: list[str]) -> str | None:
 
 
 # ------------------------------------------------------------------ one parse case
+def _observe(ctx, ig: str, mode: str, data: bytes, strict: bool):
+    """The implementation's and the model's answers for one entry point."""
+    if mode == "flat":
+        return impl_flat(ig, data, strict), model_parse(ctx, ig, False, strict, data)
+    if mode == "grouped":
+        return impl_grouped(ig, data, strict), model_parse(ctx, ig, True, strict, data)
+    return impl_to_graph(ig, data), model_parse(ctx, ig, False, False, data)
+
+
+def _judge(ig: str, mode: str, raw, expected: list[str] | None, mapf=lambda e: e) -> dict | None:
+    """Compare the two answers and the expectation; `mapf` is applied to what the model and the stream say (identity, or -- to
+    classify a difference -- what a known behaviour of a library turns it into).  None = no difference."""
+    impl, (pre, mend, mframes) = raw
+    expected = None if expected is None else [mapf(e) for e in expected]
+    d = None
+    if mode == "flat":
+        end, evs, errname = impl
+        mevs = [mapf(e) for e in model_flat_events(mframes)]
+        same = (end == mend) and (evs == mevs)
+        pv = None
+        if expected is not None:
+            if end != "E":
+                pv = f"{ig} parse_jelly_flat raised {errname} on a valid stream after {len(evs)} items"
+            elif evs != expected:
+                pv = first_diff(f"{ig} parse_jelly_flat", expected, evs)
+        if not same or pv:
+            d = {"impl": [end] + evs[:50], "model": [mend] + mevs[:50], "corresponds": same, "pv": pv}
+    elif mode == "grouped":
+        end, sinks = impl
+        msinks = [(md, [mapf(e) for e in evs]) for md, evs, ok in mframes if ok]
+        isk = []
+        for m, st, pf in sinks:
+            isk.append((m, st if ig == "g" else sorted(set(st))))
+        msk = []
+        for md, evs in msinks:
+            sts = [e for e in evs if not e.startswith("EP ")]
+            msk.append((sorted(md), sts if ig == "g" else sorted(set(sts))))
+        same = (end == mend) and (isk == msk)
+        pv = None
+        if expected is not None and end == "E":
+            flat = [e for e in expected if not e.startswith("EP ")]
+            got = [e for m, st in isk for e in st]
+            if ig == "g" and got != flat:
+                pv = first_diff(f"{ig} parse_jelly_grouped (concatenated)", flat, got)
+            if ig == "r" and sorted(set(got)) != sorted(set(flat)) and not rdf11_skip(flat):
+                pv = f"{ig} parse_jelly_grouped: union of sinks differs from the statements of the stream"
+        elif expected is not None:
+            pv = f"{ig} parse_jelly_grouped raised on a valid stream"
+        if not same or pv:
+            d = {"impl": [end] + [str(x)[:200] for x in isk[:6]], "model": [mend] + [str(x)[:200] for x in msk[:6]], "corresponds": same, "pv": pv}
+    elif mode == "to_graph":
+        end, st, pf = impl
+        mevs = [mapf(e) for e in model_flat_events(mframes) if not e.startswith("EP ")]
+        if ig == "r":
+            mevs = sorted(set(mevs))
+        # to_graph loads everything: an error anywhere gives an error
+        same = (end == mend) and (end == "R" or st == mevs)
+        pv = None
+        if expected is not None:
+            flat = [e for e in expected if not e.startswith("EP ")]
+            if ig == "r":
+                flat = sorted(set(flat))
+            if end != "E":
+                pv = f"{ig} parse_jelly_to_graph raised on a valid stream"
+            elif st != flat:
+                pv = first_diff(f"{ig} parse_jelly_to_graph", flat, st)
+        if not same or pv:
+            d = {"impl": [end] + st[:50], "model": [mend] + mevs[:50], "corresponds": same, "pv": pv}
+    return d
+
+
 def run_parse_case(ctx, data: bytes, expected: list[str] | None, igs=("g",), modes=("flat",), strict=False,
                    family="PA", meta=None, rdf11=False) -> list[dict]:
     """Run the given entry points on both sides; `expected` = events the stream denotes (None: unknown).
@@ -247,72 +327,46 @@ def run_parse_case(ctx, data: bytes, expected: list[str] | None, igs=("g",), mod
     out = []
     for ig in igs:
         for mode in modes:
-            d = None
-            if mode == "flat":
-                end, evs, errname = impl_flat(ig, data, strict)
-                pre, mend, mframes = model_parse(ctx, ig, False, strict, data)
-                mevs = model_flat_events(mframes)
-                same = (end == mend) and (evs == mevs)
-                pv = None
-                if expected is not None:
-                    if end != "E":
-                        pv = f"{ig} parse_jelly_flat raised {errname} on a valid stream after {len(evs)} items"
-                    elif evs != expected:
-                        pv = first_diff(f"{ig} parse_jelly_flat", expected, evs)
-                if not same or pv:
-                    d = {"impl": [end] + evs[:50], "model": [mend] + mevs[:50], "corresponds": same, "pv": pv}
-            elif mode == "grouped":
-                end, sinks = impl_grouped(ig, data, strict)
-                pre, mend, mframes = model_parse(ctx, ig, True, strict, data)
-                msinks = [(md, evs) for md, evs, ok in mframes if ok]
-                isk = []
-                for m, st, pf in sinks:
-                    isk.append((m, st if ig == "g" else sorted(set(st))))
-                msk = []
-                for md, evs in msinks:
-                    sts = [e for e in evs if not e.startswith("EP ")]
-                    msk.append((sorted(md), sts if ig == "g" else sorted(set(sts))))
-                same = (end == mend) and (isk == msk)
-                pv = None
-                if expected is not None and end == "E":
-                    flat = [e for e in expected if not e.startswith("EP ")]
-                    got = [e for m, st in isk for e in st]
-                    if ig == "g" and got != flat:
-                        pv = first_diff(f"{ig} parse_jelly_grouped (concatenated)", flat, got)
-                    if ig == "r" and sorted(set(got)) != sorted(set(flat)) and not rdf11_skip(flat):
-                        pv = f"{ig} parse_jelly_grouped: union of sinks differs from the statements of the stream"
-                elif expected is not None:
-                    pv = f"{ig} parse_jelly_grouped raised on a valid stream"
-                if not same or pv:
-                    d = {"impl": [end] + [str(x)[:200] for x in isk[:6]], "model": [mend] + [str(x)[:200] for x in msk[:6]], "corresponds": same, "pv": pv}
-            elif mode == "to_graph":
-                end, st, pf = impl_to_graph(ig, data)
-                pre, mend, mframes = model_parse(ctx, ig, False, False, data)
-                mevs = [e for e in model_flat_events(mframes) if not e.startswith("EP ")]
-                if ig == "r":
-                    mevs = sorted(set(mevs))
-                # to_graph loads everything: an error anywhere gives an error
-                same = (end == mend) and (end == "R" or st == mevs)
-                pv = None
-                if expected is not None:
-                    flat = [e for e in expected if not e.startswith("EP ")]
-                    if ig == "r":
-                        flat = sorted(set(flat))
-                    if end != "E":
-                        pv = f"{ig} parse_jelly_to_graph raised on a valid stream"
-                    elif st != flat:
-                        pv = first_diff(f"{ig} parse_jelly_to_graph", flat, st)
-                if not same or pv:
-                    d = {"impl": [end] + st[:50], "model": [mend] + mevs[:50], "corresponds": same, "pv": pv}
+            raw = _observe(ctx, ig, mode, data, strict)
+            d = _judge(ig, mode, raw, expected)
             if d:
                 sig = {}
-                if d["pv"] and ig == "r" and expected is not None and only_rdflib_normalisation(expected, d):
+                if ig == "r" and expected is not None and any(facet_rewritten(e) != e for e in expected) \
+                        and _judge(ig, mode, raw, expected, facet_rewritten) is None:
+                    # the ONLY difference: rdflib's constructor applied the whiteSpace facet of xsd:token / xsd:normalizedString
+                    sig = {"kind": "rdflib-whitespace-facet"}
+                elif d["pv"] and ig == "r" and expected is not None and only_rdflib_normalisation(expected, d):
                     sig = {"kind": "rdflib-literal-normalisation"}
                 out.append({"family": family, "ig": ig, "mode": mode, "strict": strict, "bytes": hx(data),
                             "impl": d["impl"], "model": d["model"], "corresponds": d["corresponds"],
                             "property_violation": None if not d["pv"] else {"what": d["pv"]},
                             "signature": sig, "meta": meta or {}})
     return out
+
+
+_FACET_DTS = (_XSD + "token", _XSD + "normalizedString")
+
+
+def facet_rewritten(tok: str) -> str:
+    """The event token with the lexical form of every xsd:token / xsd:normalizedString literal as rdflib's constructor leaves it
+    (normalize=False does not switch this off): \\t \\n \\r replaced by a space, for xsd:token also stripped and runs of spaces collapsed."""
+    import re as _re
+
+    t = tok.split(" ")
+    i = 0
+    while i < len(t):
+        if t[i] == "L" and i + 3 < len(t):
+            dt = None if t[i + 3] == "-" else unhx(t[i + 3]).decode()
+            if dt in _FACET_DTS:
+                lex = unhx(t[i + 1]).decode()
+                lex = lex.replace("\t", " ").replace("\n", " ").replace("\r", " ")
+                if dt == _FACET_DTS[0]:
+                    lex = _re.sub(" +", " ", lex.strip())
+                t[i + 1] = hx(lex)
+            i += 4
+        else:
+            i += 1
+    return " ".join(t)
 
 
 def rdf11_skip(_flat) -> bool:
